@@ -1,6 +1,7 @@
 import Darling.SyntaxCodec
 import Darling.FromMeta.Universe
 import Darling.Generated.Facts
+import Darling.FromMeta.SpanWF
 /-
   Driver for conversions through the FromMeta family (C11, C12, C15b, later C13/C14):
     (fm <ty> <entry> <oracle>)
@@ -149,5 +150,22 @@ def answer (c : Sexp) : String :=
           | _ => "bad-case"
       | _, _ => "bad-case"
   | _ => "bad-case"
+
+/-- the hypotheses of `C03.builtin_allWithin` evaluated on this case (`none`: the case hands no
+    syntax item to the conversion): the item is span-well-formed and, where the target consults the
+    `ExprArray` oracle, the oracle's answers lie inside the item -/
+def hyp (c : Sexp) : Option Bool :=
+  match c with
+  | .list [.atom "fm", ty, entry, orc] =>
+      match tyOf? ty, oracleOf? orc with
+      | some ty, some o =>
+          match entry with
+          | .list [.atom "meta", m] =>
+              (metaOf? m).map fun m => m.spanWF && (!ty.usesArr || o.arrsWithin m.span)
+          | .list [.atom "nested", n] =>
+              (nestedOf? n).map fun n => n.spanWF && (!ty.usesArr || o.arrsWithin n.span)
+          | _ => none
+      | _, _ => none
+  | _ => none
 
 end Driver.FM
